@@ -120,14 +120,29 @@ func casterScenario(capacity int, recvs []kRecv, late []kRecv, sends []int, mult
 
 // casterSeq: every sequence of Adds over boundary deltas (and Send when nobody is registered);
 // each operation is an environment choice, so bound 0 enumerates all sequences of the length.
-var casterDeltas = []int{math.MinInt32 - 1, -math.MaxInt32, -2, -1, 0, 1, 2, math.MaxInt32, math.MaxInt32 + 1}
+var casterDeltas = []int{math.MinInt32 - 1, -math.MaxInt32, -2, -1, 0, 1, 2, math.MaxInt32, math.MaxInt32 + 1,
+	// beyond 32 bits: a delta must not be judged by its low word
+	1 << 32, -(1 << 32), 1<<32 + 3, -(1 << 32) - 1, math.MinInt, math.MaxInt}
 
-func casterSeq(length int) func() {
+func casterSeq(length int) func() { return casterSeqOver(length, casterDeltas) }
+
+// casterSeqOver enumerates sequences over Add(deltas...), Send and close(C).
+func casterSeqOver(length int, casterDeltas []int) func() {
 	return func() {
-		c := NewChanCaster(make(chan int))
-		count, poisoned := int64(0), false // the harness's own copy of the model, to stay within Send's contract
+		ch := make(chan int)
+		c := NewChanCaster(ch)
+		count, poisoned, closed := int64(0), false, false // the harness's own copy of the model, to stay within Send's contract
 		for i := 0; i < length; i++ {
-			k := vrt.Choose(len(casterDeltas)+1, 0)
+			k := vrt.Choose(len(casterDeltas)+2, 0)
+			if k == len(casterDeltas)+1 {
+				// closing C is allowed; afterwards only termination is checked
+				if !closed {
+					closed = true
+					close(ch)
+					vrt.Log("close-c")
+				}
+				continue
+			}
 			if k == len(casterDeltas) {
 				func() {
 					defer func() {
@@ -135,8 +150,9 @@ func casterSeq(length int) func() {
 							vrt.Log("send-panic", fmt.Sprint(r))
 						}
 					}()
-					// Send only when nobody is registered (otherwise it would wait for receivers)
-					if count != 0 || poisoned {
+					// with an open channel, Send only when nobody is registered (otherwise it
+					// would wait for receivers) and the instance is not known to be poisoned
+					if !closed && (count != 0 || poisoned) {
 						vrt.Log("send-skipped")
 						return
 					}
@@ -187,8 +203,10 @@ func init() {
 			Run:   casterScenario(s.capacity, s.recvs, s.late, s.sends, s.multi),
 			Check: casterCheck})
 	}
-	vrt.Register(&vrt.Scenario{Name: "K-seq3", Props: []string{"C08"}, Quick: 0, Thorough: 0, Desc: "every sequence of 3 operations over Add(boundary deltas) and Send-when-idle, against the counter-with-poison model",
+	vrt.Register(&vrt.Scenario{Name: "K-seq3", Props: []string{"C08"}, Quick: 0, Thorough: 0, Desc: "every sequence of 3 operations over Add(15 boundary deltas, incl. beyond 32 bits), Send-when-idle and close(C), against the counter-with-poison model",
 		Run: casterSeq(3), Check: casterSeqCheck})
-	vrt.Register(&vrt.Scenario{Name: "K-seq4", Props: []string{"C08"}, Quick: -1, Thorough: 0, Desc: "every sequence of 4 operations over Add(boundary deltas) and Send-when-idle",
+	vrt.Register(&vrt.Scenario{Name: "K-close5", Props: []string{"C08"}, Quick: 0, Thorough: 0, Desc: "every sequence of 5 operations over Add(-1), Add(0), Add(1), Send and close(C): a panicking Send must not leave later calls hanging",
+		Run: casterSeqOver(5, []int{-1, 0, 1}), Check: casterSeqCheck})
+	vrt.Register(&vrt.Scenario{Name: "K-seq4", Props: []string{"C08"}, Quick: -1, Thorough: 0, Desc: "every sequence of 4 operations over the same alphabet",
 		Run: casterSeq(4), Check: casterSeqCheck})
 }
